@@ -194,6 +194,8 @@ fn prepare(s: &Setup) {
 struct FsState {
     input: Option<(Vec<u8>, u64, u32)>,
     dest: Option<(Vec<u8>, u64, u32)>,
+    /// every file below the working directory (except the trace itself)
+    files: Vec<String>,
 }
 
 fn snapshot(s: &Setup) -> FsState {
@@ -208,7 +210,23 @@ fn snapshot(s: &Setup) -> FsState {
         "dir" => stat(&s.dir.join("outdir/in.png")),
         _ => None,
     };
-    FsState { input: stat(&s.dir.join("in.png")), dest }
+    let mut files: Vec<String> = vec![];
+    let mut stack = vec![s.dir.clone()];
+    while let Some(d) = stack.pop() {
+        for e in std::fs::read_dir(&d).into_iter().flatten().flatten() {
+            let p = e.path();
+            if p.is_dir() {
+                stack.push(p);
+            } else {
+                let rel = p.strip_prefix(&s.dir).unwrap().to_string_lossy().into_owned();
+                if rel != "strace.log" && rel != "dump.txt" {
+                    files.push(rel);
+                }
+            }
+        }
+    }
+    files.sort();
+    FsState { input: stat(&s.dir.join("in.png")), dest, files }
 }
 
 fn strace(s: &Setup, inject: Option<&str>) -> (Option<i32>, String, Vec<u8>) {
@@ -252,12 +270,15 @@ pub fn corr(ctx: &mut Ctx) {
         ("notimprovable", improvable.1.clone()),
         ("invalid", b"\x89PNG\r\n\x1a\nnot really a png".to_vec()),
     ];
-    let routes: [(&'static str, Vec<&str>); 5] = [
+    let routes: [(&'static str, Vec<&str>); 7] = [
         ("inplace", vec![]),
         ("out", vec!["--out", "out.png"]),
         ("dir", vec!["--dir", "outdir"]),
         ("stdout", vec!["--stdout"]),
         ("pretend", vec!["--pretend"]),
+        // --pretend wins over a destination option: same model route, nothing may appear anywhere
+        ("pretenddir", vec!["--pretend", "--dir", "outdir"]),
+        ("pretend", vec!["--out", "out.png", "-P"]),
     ];
     let errnos = ["EIO", "ENOSPC", "EACCES"];
     let mut configs = 0usize;
@@ -307,7 +328,7 @@ pub fn corr(ctx: &mut Ctx) {
                 if *route != "inplace" && after.input != before.input {
                     st.fail("input-modified", format!("input changed with a different destination ({})", cfg), replay.clone());
                 }
-                if (*route == "pretend" || *kind == "invalid" || (*route == "inplace" && *kind == "notimprovable")) && after != before {
+                if (route.starts_with("pretend") || *kind == "invalid" || (*route == "inplace" && *kind == "notimprovable")) && after != before {
                     st.fail("wrote-when-it-must-not", format!("files changed ({})", cfg), replay.clone());
                 }
                 if *route != "stdout" && !stdout.is_empty() {
